@@ -51,13 +51,13 @@ func init() {
 	// properties decided on both sequential and concurrent scenarios
 	props["C06"].Gen = seqOrConc("C06", 0.4, func(seed uint64, tier string) *SeqScenario { return genSeqCache("C06", seed, tier, CacheKinds) })
 	props["C07"].Gen = seqOrConc("C07", 0.3, func(seed uint64, tier string) *SeqScenario {
-		if simrtRNG(seed^0x77).Bool(0.5) {
+		if simrtRNG(seed ^ 0x77).Bool(0.5) {
 			return genSeqCache("C07", seed, tier, CacheKinds)
 		}
 		return genSeqMap("C07", seed, tier, MapKinds[:5])
 	})
 	props["C08"].Gen = seqOrConc("C08", 0.3, func(seed uint64, tier string) *SeqScenario {
-		if simrtRNG(seed^0x77).Bool(0.5) {
+		if simrtRNG(seed ^ 0x77).Bool(0.5) {
 			return genSeqCache("C08", seed, tier, CacheKinds)
 		}
 		return genSeqMap("C08", seed, tier, MapKinds[:5])
@@ -67,7 +67,7 @@ func init() {
 func init() {
 	register(&PropDef{ID: "C10", Runs: map[string]int{"quick": 400000, "thorough": 400000},
 		Rule: "one case = one key type of a 37-type catalogue (every comparable kind, structs with padding / blank / interface / nested fields, any and a non-empty interface holding each of them and nil) with a pool of equal-but-differently-built values, a random call sequence on MapOf[K,int64] or CacheOf[K,int64] mirrored on a builtin map[K]int64, under simulator-chosen table seeds, min table length and hash mode (native / deterministic / forced collisions), pointees mutated in between; distinct = distinct event-trace hash; every case is non-trivial (the pools always contain equal-but-differently-built keys)",
-		Gen: genKeys})
+		Gen:  genKeys})
 	register(&PropDef{ID: "C15", Runs: map[string]int{"quick": 150000, "thorough": 150000},
 		Rule: "(a) one case = a cache built by a random constructor variant with interval in {negative, 0, 1 ns .. 1 h}, entries with various TTLs, then only clock advances and Count() polls (no call names a key): checked against the TTL model (janitor passes remove and report exactly the expired entries; no pass and no Count change when interval <= 0; nothing uncleaned two intervals after its instant); (b) 1% of cases: n caches are created, filled with finalizer-carrying payloads and dropped, then real GC rounds alternate with scheduler pumps until every janitor task has ended and every payload was collected (bound 30 s); distinct = distinct event-trace hash; non-trivial = a clock advance landed within 1 ns of an expiration instant or an expired entry was touched, all (b) cases",
 		Gen: func(seed uint64, tier string) *Case {
@@ -79,5 +79,5 @@ func init() {
 		}})
 	register(&PropDef{ID: "C14", Runs: map[string]int{"quick": 100000, "thorough": 100000},
 		Rule: concRule + "; built with -race; values are pointers to structs initialised by plain writes just before the store and read field by field (checksum) by every task that obtains them; 2-8 tasks; oracle: zero race reports whose stacks include the code under test or the payload accessors, intact payloads",
-		Gen: func(seed uint64, tier string) *Case { return &Case{Conc: genConc("C14", seed, tier)} }})
+		Gen:  func(seed uint64, tier string) *Case { return &Case{Conc: genConc("C14", seed, tier)} }})
 }
